@@ -1046,10 +1046,33 @@ example : "h" ∈ selOf envS stateS ∧ unfin (vis envS stateS) "h" = true ∧ a
 
 /-- THE PASS OF THIS LOOP IS THE CODE'S PASS: `pass` (C02's `cycle` over the records taken over, `vis`) is
     `process_changing_cause` as of /repo f7d6401 — `C02.cycleB`, which leaves the namesakes' records out of the loaded
-    state — for every environment and state. -/
+    state — for every environment and every state whose cause is not FREE; what it invokes, whether it closes the cycle
+    and its delays are those of `cycleB` for EVERY state. For a FREE state the loop does not take `pass` but
+    `purgeTurn`, whose records are those of `cycleB`'s FREE pass (`free_turn_is_cycleB`). -/
 theorem pass_is_cycleB (env : Env) (s : State E) :
-    pass env s = C02.cycleB (cfgOf env s) (env.boundH (causeOf s)) s.P s.now s.now env.exec :=
-  (C02.cycleB_eq_cycle_taken (cfgOf env s) (env.boundH (causeOf s)) s.P s.now s.now env.exec).symm
+    ((causeOf s).reason ≠ .free →
+      pass env s = C02.cycleB (cfgOf env s) (env.boundH (causeOf s)) s.P s.now s.now env.exec) ∧
+    (pass env s).invoked = (C02.cycleB (cfgOf env s) (env.boundH (causeOf s)) s.P s.now s.now env.exec).invoked ∧
+    (pass env s).closed = (C02.cycleB (cfgOf env s) (env.boundH (causeOf s)) s.P s.now s.now env.exec).closed ∧
+    (pass env s).delays = (C02.cycleB (cfgOf env s) (env.boundH (causeOf s)) s.P s.now s.now env.exec).delays := by
+  obtain ⟨h1, h2, h3⟩ := C02.cycleB_invoked_closed (cfgOf env s) (env.boundH (causeOf s)) s.P s.now s.now env.exec
+  refine ⟨?_, h1.symm, h2.symm, h3.symm⟩
+  intro hnf
+  have : ((cfgOf env s).reason == "free") = false := by
+    show (C14.reasonStr (causeOf s).reason == "free") = false
+    cases hr : (causeOf s).reason <;> first | exact absurd hr hnf | decide
+  exact (C02.cycleB_eq_cycle_taken (cfgOf env s) (env.boundH (causeOf s)) s.P s.now s.now env.exec this).symm
+
+/-- the records a FREE turn leaves (`purged`) are those of the code's FREE pass (`C02.cycleB`, 40d09eb) -/
+theorem free_turn_is_cycleB (env : Env) (s : State E) (hf : (causeOf s).reason = .free) :
+    (C02.cycleB (cfgOf env s) (env.boundH (causeOf s)) s.P s.now s.now env.exec).P' = purged env s ∧
+    (C02.cycleB (cfgOf env s) (env.boundH (causeOf s)) s.P s.now s.now env.exec).invoked = [] ∧
+    (C02.cycleB (cfgOf env s) (env.boundH (causeOf s)) s.P s.now s.now env.exec).closed = false := by
+  have : ((cfgOf env s).reason == "free") = true := by
+    show (C14.reasonStr (causeOf s).reason == "free") = true
+    rw [hf]; decide
+  rw [C02.cycleB_free _ _ _ _ _ _ this]
+  exact ⟨rfl, rfl, rfl⟩
 
 /-- the operator of `envS` whose update registration of `h` ran the sub-handlers `h/a`, `h/b`; somebody else's
     finalizer holds the object -/
